@@ -249,6 +249,11 @@ class RecordHistory(Engine):
             for loc in chain:
                 counter["s"] += 1
                 ops.append({"op": "add_sub", "id": f"s{counter['s']}", "loc": loc})
+            if rng.random() < 0.5:
+                # regions for these areas supplied one by one (as when a file with region features is read):
+                # overlapping ones must be refused wherever they sort
+                for _ in range(rng.randint(2, 4)):
+                    ops.append({"op": "add_region", "pick": rng.randrange(1 << 20)})
         for _ in range(n_ops):
             kind = weighted(rng, table)
             if kind == "add_gene":
